@@ -234,10 +234,10 @@ class DriverLoop(W.LoopContract):
             if self.which == 1:
                 diag = [PH.a[m, j, j] for j in range(NB)]
                 oblige("%s.two-steps-back-diagonal-is-the-loop-head-diagonal[mol%d]" % (tag, m), Sym(E.implies(E.node_of(ncH.a[m]), _rows_eq(L["Pold2_diag"].a[m], np.array(diag, dtype=object)))))
-        if len(e["calls"]) != 1:
-            oblige("%s.one-convergence-test-per-iteration" % tag, E.FALSE)
+        if len(e["calls"]) < 1:
+            oblige("%s.the-iteration-ends-with-a-convergence-test" % tag, E.FALSE)
             return
-        c = e["calls"][0]
+        c = e["calls"][-1]  # the test whose result the iteration keeps (an iteration may test more than once)
         oblige("%s.test-saw-the-current-density" % tag, _rows_eq(P.a, c["P"].a))
         oblige("%s.flags-are-the-test-result" % tag, _rows_eq(L["notconverged"].a, c["flags"].a))
         oblige("%s.test-was-told-which-molecules-were-active" % tag, _rows_eq(c["active"].a, ncH.a))
